@@ -34,6 +34,7 @@ H0 = 'io_loop::io_loop_handle::IoLoopHandle::'
 def run(ctx):
     _run_main6(ctx)
     _round6(ctx)
+    _round7(ctx)
 
 
 def _run_main6(ctx):
@@ -189,3 +190,11 @@ def _round6(ctx):
     with ctx.rule('R04.10', "a Get reply's content is assembled per channel: each channel slot has its own collector and its tables are the ones C03 states (shared with C03)", floor=36) as r:
         A.include(ctx, r, 'c03', 'R03.1', pick=(':Get:', 'collect_get:', 'collect_header:idle', 'collect_body:idle', 'collect_header:rowcount', 'collect_body:rowcount'))
         A.include(ctx, r, 'c03', 'R03.5', pick=('GetOk', 'GetEmpty', ':get:', 'Header/-/-', 'Body/-/-', 'slot-addressing'))
+
+
+def _round7(ctx):
+    """Found by seeding round 7 (minimal one-line mutations)."""
+    from rules import arms as A
+    with ctx.rule('R04.11', 'a request reaches the I/O thread or the call fails: blocking hand-off send (never a dropped request with the caller left waiting); a channel opened after a back-pressure episode is polled (shared with C09, C18)', floor=4) as r:
+        A.include(ctx, r, 'c09', 'R09.3', pick=('send',))
+        A.include(ctx, r, 'c18', 'R18.2', pick=('flag',))
